@@ -1,1 +1,719 @@
-//! reference model `regex` (filled in by the property that needs it)
+//! Reference model `regex`: regular expressions over the byte alphabet.
+//!
+//! Two independent deciders written from the textbook definitions (no library code):
+//!
+//! * [`Re`] - canonical regular expressions with Brzozowski derivatives. Smart constructors
+//!   normalise modulo associativity of concatenation, associativity / commutativity /
+//!   idempotence of choice and the unit / zero laws, so the set of iterated derivatives of
+//!   any expression is finite (Brzozowski 1964) and `Re::Null` is the *only* canonical form
+//!   with an empty language (every other form is built from non-empty sets with operators
+//!   that preserve non-emptiness).
+//! * [`Ast::matches_naive`] - position-set semantics evaluated directly on the combinator
+//!   tree (`ends(node, starts)` = set of positions where a match of `node` beginning at one
+//!   of `starts` may end). Used to validate the derivative matcher and in witness replay.
+//!
+//! [`Ast`] is the combinator program: exactly the constructors of the public `NFA` API.
+use serde_json::{json, Value};
+use std::fmt;
+
+// ---------------------------------------------------------------------------------------
+// byte sets
+// ---------------------------------------------------------------------------------------
+
+#[derive(Clone, Copy, PartialEq, Eq, PartialOrd, Ord, Hash, Debug, Default)]
+pub struct ByteSet(pub [u64; 4]);
+
+impl ByteSet {
+    pub const EMPTY: ByteSet = ByteSet([0; 4]);
+
+    pub fn single(b: u8) -> Self {
+        let mut s = Self::EMPTY;
+        s.insert(b);
+        s
+    }
+    pub fn from_fn(f: impl Fn(u8) -> bool) -> Self {
+        let mut s = Self::EMPTY;
+        for b in 0..=255u8 {
+            if f(b) {
+                s.insert(b);
+            }
+        }
+        s
+    }
+    pub fn insert(&mut self, b: u8) {
+        self.0[(b >> 6) as usize] |= 1u64 << (b & 63);
+    }
+    pub fn contains(&self, b: u8) -> bool {
+        self.0[(b >> 6) as usize] >> (b & 63) & 1 == 1
+    }
+    pub fn is_empty(&self) -> bool {
+        self.0 == [0; 4]
+    }
+    pub fn len(&self) -> u32 {
+        self.0.iter().map(|w| w.count_ones()).sum()
+    }
+    pub fn first(&self) -> Option<u8> {
+        (0..=255u8).find(|b| self.contains(*b))
+    }
+    /// inclusive ranges, ascending
+    pub fn ranges(&self) -> Vec<(u8, u8)> {
+        let mut out: Vec<(u8, u8)> = vec![];
+        for b in 0..=255u8 {
+            if self.contains(b) {
+                match out.last_mut() {
+                    Some((_, hi)) if *hi as u16 + 1 == b as u16 => *hi = b,
+                    _ => out.push((b, b)),
+                }
+            }
+        }
+        out
+    }
+    pub fn from_ranges(r: &[(u8, u8)]) -> Self {
+        let mut s = Self::EMPTY;
+        for (lo, hi) in r {
+            for b in *lo..=*hi {
+                s.insert(b);
+            }
+        }
+        s
+    }
+}
+
+fn show_byte(b: u8) -> String {
+    match b {
+        0x1b => "\\e".into(),
+        b'\\' => "\\\\".into(),
+        0x21..=0x7e => (b as char).to_string(),
+        _ => format!("\\x{:02x}", b),
+    }
+}
+
+impl fmt::Display for ByteSet {
+    fn fmt(&self, f: &mut fmt::Formatter<'_>) -> fmt::Result {
+        write!(f, "[")?;
+        for (lo, hi) in self.ranges() {
+            if lo == hi {
+                write!(f, "{}", show_byte(lo))?;
+            } else {
+                write!(f, "{}-{}", show_byte(lo), show_byte(hi))?;
+            }
+        }
+        write!(f, "]")
+    }
+}
+
+// ---------------------------------------------------------------------------------------
+// canonical regular expressions + derivatives
+// ---------------------------------------------------------------------------------------
+
+#[derive(Clone, PartialEq, Eq, PartialOrd, Ord, Hash, Debug)]
+pub enum Re {
+    /// the empty language
+    Null,
+    /// the language {""}
+    Eps,
+    /// one byte out of a non-empty set
+    Set(ByteSet),
+    /// concatenation, right-nested, no Null/Eps operand, left operand is not a Cat
+    Cat(Box<Re>, Box<Re>),
+    /// union of >= 2 operands: sorted, duplicate free, flattened, no Null
+    Alt(Vec<Re>),
+    /// Kleene star; operand is neither Null, Eps nor a Star
+    Star(Box<Re>),
+}
+
+impl Re {
+    pub fn set(s: ByteSet) -> Re {
+        if s.is_empty() {
+            Re::Null
+        } else {
+            Re::Set(s)
+        }
+    }
+
+    pub fn cat(a: Re, b: Re) -> Re {
+        match (a, b) {
+            (Re::Null, _) | (_, Re::Null) => Re::Null,
+            (Re::Eps, b) => b,
+            (a, Re::Eps) => a,
+            (Re::Cat(x, y), b) => Re::cat(*x, Re::cat(*y, b)),
+            (a, b) => Re::Cat(Box::new(a), Box::new(b)),
+        }
+    }
+
+    pub fn alt(items: impl IntoIterator<Item = Re>) -> Re {
+        let mut flat: Vec<Re> = Vec::new();
+        for it in items {
+            match it {
+                Re::Null => {}
+                Re::Alt(v) => flat.extend(v),
+                other => flat.push(other),
+            }
+        }
+        flat.sort();
+        flat.dedup();
+        match flat.len() {
+            0 => Re::Null,
+            1 => flat.pop().unwrap(),
+            _ => Re::Alt(flat),
+        }
+    }
+
+    pub fn star(a: Re) -> Re {
+        match a {
+            Re::Null | Re::Eps => Re::Eps,
+            Re::Star(x) => Re::Star(x),
+            a => Re::Star(Box::new(a)),
+        }
+    }
+
+    /// a+ = a a*
+    pub fn plus(a: Re) -> Re {
+        Re::cat(a.clone(), Re::star(a))
+    }
+
+    /// a? = a | eps
+    pub fn opt(a: Re) -> Re {
+        Re::alt([a, Re::Eps])
+    }
+
+    pub fn literal(bytes: &[u8]) -> Re {
+        let mut r = Re::Eps;
+        for b in bytes.iter().rev() {
+            r = Re::cat(Re::Set(ByteSet::single(*b)), r);
+        }
+        r
+    }
+
+    /// does the language contain the empty string
+    pub fn nullable(&self) -> bool {
+        match self {
+            Re::Null | Re::Set(_) => false,
+            Re::Eps | Re::Star(_) => true,
+            Re::Cat(a, b) => a.nullable() && b.nullable(),
+            Re::Alt(v) => v.iter().any(|r| r.nullable()),
+        }
+    }
+
+    /// canonical form of an empty language (see module doc)
+    pub fn is_null(&self) -> bool {
+        matches!(self, Re::Null)
+    }
+
+    /// Brzozowski derivative: { w | byte.w in L(self) }
+    pub fn deriv(&self, byte: u8) -> Re {
+        match self {
+            Re::Null | Re::Eps => Re::Null,
+            Re::Set(s) => {
+                if s.contains(byte) {
+                    Re::Eps
+                } else {
+                    Re::Null
+                }
+            }
+            Re::Cat(a, b) => {
+                let left = Re::cat(a.deriv(byte), (**b).clone());
+                if a.nullable() {
+                    Re::alt([left, b.deriv(byte)])
+                } else {
+                    left
+                }
+            }
+            Re::Alt(v) => Re::alt(v.iter().map(|r| r.deriv(byte))),
+            Re::Star(a) => Re::cat(a.deriv(byte), self.clone()),
+        }
+    }
+
+    pub fn matches(&self, input: &[u8]) -> bool {
+        let mut r = self.clone();
+        for b in input {
+            r = r.deriv(*b);
+            if r.is_null() {
+                return false;
+            }
+        }
+        r.nullable()
+    }
+
+    /// Byte sets mentioned anywhere in the expression (the derivative only ever inspects a
+    /// byte through `contains` on one of these).
+    pub fn collect_sets(&self, out: &mut Vec<ByteSet>) {
+        match self {
+            Re::Null | Re::Eps => {}
+            Re::Set(s) => out.push(*s),
+            Re::Cat(a, b) => {
+                a.collect_sets(out);
+                b.collect_sets(out);
+            }
+            Re::Alt(v) => v.iter().for_each(|r| r.collect_sets(out)),
+            Re::Star(a) => a.collect_sets(out),
+        }
+    }
+}
+
+impl fmt::Display for Re {
+    fn fmt(&self, f: &mut fmt::Formatter<'_>) -> fmt::Result {
+        match self {
+            Re::Null => write!(f, "∅"),
+            Re::Eps => write!(f, "ε"),
+            Re::Set(s) if s.len() == 1 => write!(f, "{}", show_byte(s.first().unwrap())),
+            Re::Set(s) => write!(f, "{}", s),
+            Re::Cat(a, b) => write!(f, "{}{}", a, b),
+            Re::Alt(v) => {
+                write!(f, "(")?;
+                for (i, r) in v.iter().enumerate() {
+                    if i > 0 {
+                        write!(f, "|")?;
+                    }
+                    write!(f, "{}", r)?;
+                }
+                write!(f, ")")
+            }
+            Re::Star(a) => write!(f, "({})*", a),
+        }
+    }
+}
+
+/// Partition of the byte alphabet into classes that no set in `sets` distinguishes.
+/// Returns `(class_of[256], representatives)`. Two bytes of one class have the same
+/// membership in every set, hence identical derivatives of every expression over `sets`.
+pub fn byte_classes(sets: &[ByteSet]) -> ([u16; 256], Vec<u8>) {
+    let mut sigs: Vec<(Vec<bool>, u16)> = Vec::new();
+    let mut class_of = [0u16; 256];
+    let mut reps = Vec::new();
+    for b in 0..=255u8 {
+        let sig: Vec<bool> = sets.iter().map(|s| s.contains(b)).collect();
+        let id = match sigs.iter().find(|(s, _)| *s == sig) {
+            Some((_, id)) => *id,
+            None => {
+                let id = sigs.len() as u16;
+                sigs.push((sig, id));
+                reps.push(b);
+                id
+            }
+        };
+        class_of[b as usize] = id;
+    }
+    (class_of, reps)
+}
+
+// ---------------------------------------------------------------------------------------
+// combinator programs
+// ---------------------------------------------------------------------------------------
+
+/// A program over the public `NFA` combinators.
+#[derive(Clone, PartialEq, Eq, PartialOrd, Ord, Hash, Debug)]
+pub enum Ast {
+    /// `NFA::from(&str)` (bytes are always ASCII here so that the str is the byte string)
+    Lit(Vec<u8>),
+    /// `NFA::predicate(|b| set.contains(b))`
+    Pred(ByteSet),
+    /// `NFA::empty()`
+    Empty,
+    /// `NFA::nothing()`
+    Nothing,
+    /// `NFA::sequence([...])` with any number of operands (0 => empty string)
+    Seq(Vec<Ast>),
+    /// `NFA::choice([...])` with any number of operands (0 => nothing)
+    Choice(Vec<Ast>),
+    /// `.optional()`
+    Opt(Box<Ast>),
+    /// `.some()` (one or more)
+    Some(Box<Ast>),
+    /// `.many()` (zero or more)
+    Many(Box<Ast>),
+}
+
+impl Ast {
+    pub fn lit(s: &str) -> Ast {
+        Ast::Lit(s.as_bytes().to_vec())
+    }
+    pub fn pred(f: impl Fn(u8) -> bool) -> Ast {
+        Ast::Pred(ByteSet::from_fn(f))
+    }
+    pub fn seq(v: impl IntoIterator<Item = Ast>) -> Ast {
+        Ast::Seq(v.into_iter().collect())
+    }
+    pub fn choice(v: impl IntoIterator<Item = Ast>) -> Ast {
+        Ast::Choice(v.into_iter().collect())
+    }
+    pub fn opt(self) -> Ast {
+        Ast::Opt(Box::new(self))
+    }
+    pub fn some(self) -> Ast {
+        Ast::Some(Box::new(self))
+    }
+    pub fn many(self) -> Ast {
+        Ast::Many(Box::new(self))
+    }
+
+    pub fn nodes(&self) -> usize {
+        match self {
+            Ast::Lit(_) | Ast::Pred(_) | Ast::Empty | Ast::Nothing => 1,
+            Ast::Seq(v) | Ast::Choice(v) => 1 + v.iter().map(|a| a.nodes()).sum::<usize>(),
+            Ast::Opt(a) | Ast::Some(a) | Ast::Many(a) => 1 + a.nodes(),
+        }
+    }
+
+    /// The regular expression the program denotes (the meaning the NFA documentation gives
+    /// to each combinator).
+    pub fn to_re(&self) -> Re {
+        match self {
+            Ast::Lit(b) => Re::literal(b),
+            Ast::Pred(s) => Re::set(*s),
+            Ast::Empty => Re::Eps,
+            Ast::Nothing => Re::Null,
+            Ast::Seq(v) => v.iter().rev().fold(Re::Eps, |acc, a| Re::cat(a.to_re(), acc)),
+            Ast::Choice(v) => Re::alt(v.iter().map(|a| a.to_re())),
+            Ast::Opt(a) => Re::opt(a.to_re()),
+            Ast::Some(a) => Re::plus(a.to_re()),
+            Ast::Many(a) => Re::star(a.to_re()),
+        }
+    }
+
+    /// which of the unary loop/option operators occur (for finding keys)
+    pub fn op_profile(&self) -> String {
+        fn walk(a: &Ast, f: &mut [bool; 3]) {
+            match a {
+                Ast::Opt(x) => {
+                    f[0] = true;
+                    walk(x, f)
+                }
+                Ast::Some(x) => {
+                    f[1] = true;
+                    walk(x, f)
+                }
+                Ast::Many(x) => {
+                    f[2] = true;
+                    walk(x, f)
+                }
+                Ast::Seq(v) | Ast::Choice(v) => v.iter().for_each(|x| walk(x, f)),
+                _ => {}
+            }
+        }
+        let mut f = [false; 3];
+        walk(self, &mut f);
+        let names = ["opt", "some", "many"];
+        let v: Vec<&str> = (0..3).filter(|i| f[*i]).map(|i| names[i]).collect();
+        if v.is_empty() {
+            "plain".into()
+        } else {
+            v.join("+")
+        }
+    }
+
+    /// Position-set semantics: all positions where a match of `self` that starts at a
+    /// position in `starts` can end. `starts`/result are bit masks over 0..=input.len()
+    /// (input.len() <= 127).
+    pub fn ends(&self, input: &[u8], starts: u128) -> u128 {
+        if starts == 0 {
+            return 0;
+        }
+        let n = input.len();
+        match self {
+            Ast::Empty => starts,
+            Ast::Nothing => 0,
+            Ast::Lit(bytes) => {
+                let mut out = 0u128;
+                for p in 0..=n {
+                    if starts >> p & 1 == 1 && p + bytes.len() <= n && &input[p..p + bytes.len()] == &bytes[..] {
+                        out |= 1 << (p + bytes.len());
+                    }
+                }
+                out
+            }
+            Ast::Pred(s) => {
+                let mut out = 0u128;
+                for p in 0..n {
+                    if starts >> p & 1 == 1 && s.contains(input[p]) {
+                        out |= 1 << (p + 1);
+                    }
+                }
+                out
+            }
+            Ast::Seq(v) => v.iter().fold(starts, |acc, a| a.ends(input, acc)),
+            Ast::Choice(v) => v.iter().fold(0, |acc, a| acc | a.ends(input, starts)),
+            Ast::Opt(a) => starts | a.ends(input, starts),
+            Ast::Some(a) => {
+                // least fixpoint of X = a(starts) | a(X)
+                let mut x = a.ends(input, starts);
+                loop {
+                    let nx = x | a.ends(input, x);
+                    if nx == x {
+                        return x;
+                    }
+                    x = nx;
+                }
+            }
+            Ast::Many(a) => {
+                let mut x = starts;
+                loop {
+                    let nx = x | a.ends(input, x);
+                    if nx == x {
+                        return x;
+                    }
+                    x = nx;
+                }
+            }
+        }
+    }
+
+    /// whole-string match by position sets (independent of the derivative matcher)
+    pub fn matches_naive(&self, input: &[u8]) -> bool {
+        assert!(input.len() <= 127);
+        self.ends(input, 1) >> input.len() & 1 == 1
+    }
+
+    pub fn collect_sets(&self, out: &mut Vec<ByteSet>) {
+        match self {
+            Ast::Lit(b) => out.extend(b.iter().map(|x| ByteSet::single(*x))),
+            Ast::Pred(s) => out.push(*s),
+            Ast::Empty | Ast::Nothing => {}
+            Ast::Seq(v) | Ast::Choice(v) => v.iter().for_each(|a| a.collect_sets(out)),
+            Ast::Opt(a) | Ast::Some(a) | Ast::Many(a) => a.collect_sets(out),
+        }
+    }
+
+    pub fn to_json(&self) -> Value {
+        match self {
+            Ast::Lit(b) => json!({"lit": b.iter().map(|x| format!("{:02x}", x)).collect::<String>()}),
+            Ast::Pred(s) => json!({"pred": s.ranges().iter().map(|(a, b)| json!([a, b])).collect::<Vec<_>>()}),
+            Ast::Empty => json!("empty"),
+            Ast::Nothing => json!("nothing"),
+            Ast::Seq(v) => json!({"seq": v.iter().map(|a| a.to_json()).collect::<Vec<_>>()}),
+            Ast::Choice(v) => json!({"choice": v.iter().map(|a| a.to_json()).collect::<Vec<_>>()}),
+            Ast::Opt(a) => json!({"opt": a.to_json()}),
+            Ast::Some(a) => json!({"some": a.to_json()}),
+            Ast::Many(a) => json!({"many": a.to_json()}),
+        }
+    }
+
+    pub fn from_json(v: &Value) -> Result<Ast, String> {
+        if let Some(s) = v.as_str() {
+            return match s {
+                "empty" => Ok(Ast::Empty),
+                "nothing" => Ok(Ast::Nothing),
+                _ => Err(format!("bad ast atom {s}")),
+            };
+        }
+        let o = v.as_object().ok_or("ast: expected object")?;
+        let (k, x) = o.iter().next().ok_or("ast: empty object")?;
+        let list = |x: &Value| -> Result<Vec<Ast>, String> {
+            x.as_array().ok_or("ast: expected list")?.iter().map(Ast::from_json).collect()
+        };
+        match k.as_str() {
+            "lit" => {
+                let s = x.as_str().ok_or("lit")?;
+                if s.len() % 2 != 0 {
+                    return Err("lit: odd hex".into());
+                }
+                let bytes: Result<Vec<u8>, _> =
+                    (0..s.len() / 2).map(|i| u8::from_str_radix(&s[2 * i..2 * i + 2], 16)).collect();
+                let bytes = bytes.map_err(|e| e.to_string())?;
+                if bytes.iter().any(|b| *b >= 0x80) {
+                    return Err("lit: only ASCII literals can be passed as &str".into());
+                }
+                Ok(Ast::Lit(bytes))
+            }
+            "pred" => {
+                let mut r = vec![];
+                for p in x.as_array().ok_or("pred")? {
+                    let lo = p[0].as_u64().ok_or("pred lo")? as u8;
+                    let hi = p[1].as_u64().ok_or("pred hi")? as u8;
+                    r.push((lo, hi));
+                }
+                Ok(Ast::Pred(ByteSet::from_ranges(&r)))
+            }
+            "seq" => Ok(Ast::Seq(list(x)?)),
+            "choice" => Ok(Ast::Choice(list(x)?)),
+            "opt" => Ok(Ast::Opt(Box::new(Ast::from_json(x)?))),
+            "some" => Ok(Ast::Some(Box::new(Ast::from_json(x)?))),
+            "many" => Ok(Ast::Many(Box::new(Ast::from_json(x)?))),
+            other => Err(format!("bad ast key {other}")),
+        }
+    }
+
+    /// Python `re` syntax (bytes pattern) for cross-validation of the reference.
+    pub fn to_python(&self) -> String {
+        fn esc(b: u8) -> String {
+            format!("\\x{:02x}", b)
+        }
+        match self {
+            Ast::Lit(b) => format!("(?:{})", b.iter().map(|x| esc(*x)).collect::<String>()),
+            Ast::Pred(s) if s.is_empty() => "(?!)".into(),
+            Ast::Pred(s) => format!(
+                "[{}]",
+                s.ranges()
+                    .iter()
+                    .map(|(a, b)| if a == b { esc(*a) } else { format!("{}-{}", esc(*a), esc(*b)) })
+                    .collect::<String>()
+            ),
+            Ast::Empty => "(?:)".into(),
+            Ast::Nothing => "(?!)".into(),
+            Ast::Seq(v) => format!("(?:{})", v.iter().map(|a| a.to_python()).collect::<String>()),
+            Ast::Choice(v) if v.is_empty() => "(?!)".into(),
+            Ast::Choice(v) => format!("(?:{})", v.iter().map(|a| a.to_python()).collect::<Vec<_>>().join("|")),
+            Ast::Opt(a) => format!("(?:{})?", a.to_python()),
+            Ast::Some(a) => format!("(?:{})+", a.to_python()),
+            Ast::Many(a) => format!("(?:{})*", a.to_python()),
+        }
+    }
+}
+
+impl fmt::Display for Ast {
+    fn fmt(&self, f: &mut fmt::Formatter<'_>) -> fmt::Result {
+        match self {
+            Ast::Lit(b) => write!(f, "\"{}\"", b.iter().map(|x| show_byte(*x)).collect::<String>()),
+            Ast::Pred(s) => write!(f, "{}", s),
+            Ast::Empty => write!(f, "empty"),
+            Ast::Nothing => write!(f, "nothing"),
+            Ast::Seq(v) => {
+                write!(f, "seq(")?;
+                for (i, a) in v.iter().enumerate() {
+                    if i > 0 {
+                        write!(f, ", ")?;
+                    }
+                    write!(f, "{}", a)?;
+                }
+                write!(f, ")")
+            }
+            Ast::Choice(v) => {
+                write!(f, "choice(")?;
+                for (i, a) in v.iter().enumerate() {
+                    if i > 0 {
+                        write!(f, ", ")?;
+                    }
+                    write!(f, "{}", a)?;
+                }
+                write!(f, ")")
+            }
+            Ast::Opt(a) => write!(f, "{}.optional()", a),
+            Ast::Some(a) => write!(f, "{}.some()", a),
+            Ast::Many(a) => write!(f, "{}.many()", a),
+        }
+    }
+}
+
+// ---------------------------------------------------------------------------------------
+// bounded enumeration of programs
+// ---------------------------------------------------------------------------------------
+
+/// Grammar of the enumerated programs.
+#[derive(Clone)]
+pub struct Grammar {
+    pub atoms: Vec<Ast>,
+    /// also enumerate `sequence([])`, `choice([])` (as one-node programs) and one-operand
+    /// `sequence([x])`, `choice([x])`
+    pub edge_arities: bool,
+}
+
+/// One top-level shape of size `n`: operator and operand sizes.
+#[derive(Clone, Debug)]
+pub struct Shape {
+    pub op: u8, // 0 opt, 1 some, 2 many, 3 seq, 4 choice
+    pub sizes: Vec<usize>,
+}
+
+pub struct Enumerator {
+    pub grammar: Grammar,
+    /// all programs with exactly n nodes, for n <= stored
+    pub by_size: Vec<Vec<Ast>>,
+    /// number of programs with exactly n nodes for n <= max
+    pub counts: Vec<u64>,
+}
+
+fn compositions(total: usize, parts: usize) -> Vec<Vec<usize>> {
+    if parts == 0 {
+        return if total == 0 { vec![vec![]] } else { vec![] };
+    }
+    let mut out = vec![];
+    for first in 1..=total.saturating_sub(parts - 1) {
+        for mut rest in compositions(total - first, parts - 1) {
+            let mut v = vec![first];
+            v.append(&mut rest);
+            out.push(v);
+        }
+    }
+    out
+}
+
+impl Enumerator {
+    /// Materialise every program with up to `stored` nodes.
+    pub fn new(grammar: Grammar, stored: usize) -> Self {
+        let mut e = Enumerator { grammar, by_size: vec![vec![]], counts: vec![0] };
+        for n in 1..=stored {
+            let mut v = Vec::new();
+            if n == 1 {
+                v.extend(e.grammar.atoms.iter().cloned());
+                if e.grammar.edge_arities {
+                    v.push(Ast::Seq(vec![]));
+                    v.push(Ast::Choice(vec![]));
+                }
+            } else {
+                for shape in e.shapes(n) {
+                    let total = e.shape_count(&shape);
+                    for i in 0..total {
+                        v.push(e.build(&shape, i));
+                    }
+                }
+            }
+            e.counts.push(v.len() as u64);
+            e.by_size.push(v);
+        }
+        e
+    }
+
+    /// Top-level shapes of programs with exactly `n >= 2` nodes, in a fixed order.
+    pub fn shapes(&self, n: usize) -> Vec<Shape> {
+        let mut out = vec![];
+        for op in 0..3u8 {
+            out.push(Shape { op, sizes: vec![n - 1] });
+        }
+        let arities: &[usize] = if self.grammar.edge_arities { &[1, 2, 3] } else { &[2, 3] };
+        for op in 3..5u8 {
+            for k in arities {
+                for sizes in compositions(n - 1, *k) {
+                    out.push(Shape { op, sizes });
+                }
+            }
+        }
+        out
+    }
+
+    /// number of programs of this shape (operands must be materialised)
+    pub fn shape_count(&self, s: &Shape) -> u64 {
+        s.sizes.iter().map(|z| self.by_size[*z].len() as u64).product()
+    }
+
+    /// the `index`-th program of a shape (mixed radix over the operand lists, first operand
+    /// least significant)
+    pub fn build(&self, s: &Shape, mut index: u64) -> Ast {
+        let mut ops = Vec::with_capacity(s.sizes.len());
+        for z in &s.sizes {
+            let list = &self.by_size[*z];
+            ops.push(list[(index % list.len() as u64) as usize].clone());
+            index /= list.len() as u64;
+        }
+        match s.op {
+            0 => Ast::Opt(Box::new(ops.pop().unwrap())),
+            1 => Ast::Some(Box::new(ops.pop().unwrap())),
+            2 => Ast::Many(Box::new(ops.pop().unwrap())),
+            3 => Ast::Seq(ops),
+            _ => Ast::Choice(ops),
+        }
+    }
+}
+
+#[cfg(test)]
+mod tests {
+    use super::*;
+
+    #[test]
+    fn derivative_basics() {
+        let r = Ast::seq([Ast::lit("a").some(), Ast::lit("b")]).opt().to_re();
+        assert!(r.matches(b""));
+        assert!(r.matches(b"aab"));
+        assert!(!r.matches(b"a"));
+        assert!(!r.matches(b"b"));
+    }
+}
